@@ -4,12 +4,13 @@
     Model/Printer.v; proofs: Proofs/ParserBasics.v, ExprRoundTrip.v, FuelProofs.v,
     ParserProofs.v, CommandProofs.v, TotalityProofs.v, PanicProofs.v, QueryRoundTrip.v,
     TokenizerProofs.v, LexProofs.v, CommandRoundTrip.v, CostProofs.v,
-    ExprRoundTripG.v, PlotProofs.v, PlotRoundTrip.v (PLOT: Model/PlotQL.v). *)
+    ExprRoundTripG.v, PlotProofs.v, PlotRoundTrip.v (PLOT: Model/PlotQL.v), JsonProofs.v (HTTP JSON
+    commands: Model/JsonCommand.v). *)
 From Coq Require Import NArith ZArith List Bool.
-From Snel Require Import Base.Bytes Gen.Params Model.Tokenizer Model.Parser Model.PlotQL Model.Command Model.Printer
+From Snel Require Import Base.Bytes Gen.Params Model.Tokenizer Model.Parser Model.PlotQL Model.Command Model.Printer Model.JsonCommand
   Proofs.ExprRoundTrip Proofs.FuelProofs Proofs.ParserProofs Proofs.CommandProofs
   Proofs.TotalityProofs Proofs.PanicProofs Proofs.QueryRoundTrip 
-  Proofs.TokenizerProofs Proofs.CommandRoundTrip Proofs.CostProofs Proofs.PlotRoundTrip.
+  Proofs.TokenizerProofs Proofs.CommandRoundTrip Proofs.CostProofs Proofs.PlotRoundTrip Proofs.JsonProofs.
 Import ListNotations.
 Open Scope N_scope.
 
@@ -157,6 +158,27 @@ Theorem C17_no_exponential_witness :
           (depths ++ [34]%nat) = true.
 Proof. exact no_exponential_witness. Qed.
 Print Assumptions C17_no_exponential_witness.
+
+(** The HTTP JSON form of a query: the operand list of an and / or object is joined without losing,
+    duplicating or reordering an operand, for a list of any length. [and_operands n e] reads the operands
+    back off a left-nested chain of n connectives; [leaves] lists the comparisons of an expression. *)
+Theorem C17_json_join_keeps_operands : forall xs e,
+  (join EAnd xs = Some e -> and_operands (length xs - 1) e = xs /\ leaves e = flat_map leaves xs) /\
+  (join EOr xs = Some e -> or_operands (length xs - 1) e = xs /\ leaves e = flat_map leaves xs) /\
+  (join EAnd xs = None <-> xs = []).
+Proof. exact join_keeps_operands. Qed.
+Print Assumptions C17_json_join_keeps_operands.
+
+(** ... and through the modelled conversion itself: an object holding only an and (only an or) array whose
+    elements convert to the non-empty list xs converts to the chain whose operands are exactly xs. *)
+Theorem C17_json_logical_keeps_operands : forall f js xs,
+  xs <> [] -> jall (map (conv_expr f) js) = JOk xs ->
+  (exists e, conv_expr (S f) (JObj [(S_and, JArr js)]) = JOk e /\
+             and_operands (length xs - 1) e = xs /\ leaves e = flat_map leaves xs) /\
+  (exists e, conv_expr (S f) (JObj [(S_or, JArr js)]) = JOk e /\
+             or_operands (length xs - 1) e = xs /\ leaves e = flat_map leaves xs).
+Proof. exact conv_logical_keeps_operands. Qed.
+Print Assumptions C17_json_logical_keeps_operands.
 
 (** Dispatch: some variant of Command has no arm (Batch) ... *)
 Theorem C17_dispatch_refuted :
